@@ -164,12 +164,46 @@ def coq_assumptions(module, names):
     return res, o + e
 
 
+FORBIDDEN = re.compile(r'^\s*(Axiom|Axioms|Parameter|Parameters|Conjecture|Hypothesis|Variable|Variables|Admitted|Admit Obligations)\b|\badmit\b|Unset\s+Guard|bypass_check|-type-in-type|impredicative-set|Unset\s+Universe\s+Checking|Unset\s+Positivity')
+
+
+def forbidden_constructs():
+    """declared axioms, admitted proofs, disabled kernel checks anywhere in the development (Variable / Hypothesis are allowed inside a Section only)"""
+    out = []
+    for root, _, fs in os.walk(os.path.join(COQ)):
+        for f in fs:
+            if not f.endswith('.v'):
+                continue
+            depth = 0
+            for k, line in enumerate(open(os.path.join(root, f), errors='replace')):
+                code = re.sub(r'\(\*.*?\*\)', '', line)
+                if re.match(r'^\s*Section\b', code): depth += 1
+                m = FORBIDDEN.search(code)
+                if m:
+                    word = (m.group(1) or m.group(0)).strip()
+                    if word in ('Variable', 'Variables', 'Hypothesis') and depth > 0:
+                        pass
+                    else:
+                        out.append('%s:%d %s' % (f, k + 1, word))
+                if re.match(r'^\s*End\b', code) and depth > 0: depth -= 1
+    for f in ('_CoqProject',):
+        t = open(os.path.join(COQ, f)).read()
+        if 'type-in-type' in t or 'impredicative-set' in t:
+            out.append(f + ' passes a forbidden flag')
+    return out
+
+
 def check_proofs(module):
     """build + assumptions; returns dict(ok, obligations, discharged, axioms, failed, log_tail)"""
     names = theorem_names(module)
     ok, log = coq_build(module)
     axioms, failed = set(), []
     discharged = 0
+    bad = forbidden_constructs()
+    if bad:
+        ok = False
+        failed += ['forbidden construct: ' + b for b in bad[:5]]
+        log += '\nforbidden constructs in the development: ' + '; '.join(bad[:5])
     if ok:
         res, alog = coq_assumptions(module, names)
         for n in names:
